@@ -13,7 +13,7 @@ import (
 func init() {
 	vfRegister(&vfProp{
 		id:       "C14",
-		classes:  []string{"os", "os-alloc", "rs", "rs-alloc", "rs-park", "rs-park", "os-halfclose", "rs-halfclose", "os-stale", "rs-stale", "rs-wfail"},
+		classes:  []string{"os", "os-alloc", "rs", "rs-alloc", "rs-park", "rs-park", "os-halfclose", "rs-halfclose", "os-stale", "rs-stale", "rs-wfail", "os-replyfail", "rs-replyfail"},
 		gen:      c14Gen,
 		exec:     c14Exec,
 		valid:    c14Valid,
@@ -51,6 +51,13 @@ func c14Gen(class string, seed uint64, tier string) *vfScenario {
 	case "rs-stale":
 		sc.Cfg["kind"], sc.Cfg["stale"], sc.Cfg["parkdata"] = 1, 1, 1
 		sc.Cfg["alloc"] = int64(rng.IntN(2))
+	case "os-replyfail", "rs-replyfail":
+		// the reply direction fails at some write (the peer stops reading) while requests keep arriving: the server
+		// goes on serving them, and a CLOSE still has to wait for the reads and writes sent before it
+		sc.Cfg["kind"] = int64(map[string]int{"os-replyfail": 0, "rs-replyfail": 1}[class])
+		sc.Cfg["parkdata"] = int64(rng.IntN(2)) * sc.Cfg["kind"]
+		sc.Cfg["alloc"] = int64(rng.IntN(2))
+		sc.Faults = []vfFault{{K: "s2cwr", At: int64(2 + rng.IntN(14))}}
 	case "rs-wfail":
 		// the handler fails one WriteAt of the burst: everything else must go on as usual
 		sc.Cfg["kind"] = 1
@@ -150,6 +157,9 @@ func c14Exec(r *vfRun) {
 		if f.K == "wfail" && s.fs != nil {
 			s.fs.planFault("WriteAt", int(f.At), c10Opaque)
 		}
+		if f.K == "s2cwr" {
+			s.srv.s2c.wrFaultAt = int(f.At)
+		}
 	}
 	sim.run(nil)
 	if sim.failed() {
@@ -166,7 +176,8 @@ func c14Exec(r *vfRun) {
 		}
 		s.fs.mu.Unlock()
 	}
-	c02CheckReplies(r, s.wc, true)
+	replyFail := sim.stats["fault.s2c.wrerr"] > 0
+	c02CheckReplies(r, s.wc, !replyFail)
 	if sim.failed() {
 		r.sim.viol.Class = "C14/" + r.sim.viol.Class[4:]
 		return
@@ -180,6 +191,28 @@ func c14Exec(r *vfRun) {
 	wc := s.wc
 	for i, q := range wc.reqs {
 		op := wc.ops[i]
+		if i >= len(wc.replies) {
+			// the reply was lost with the reply direction; the request was served all the same
+			if !replyFail {
+				r.fail("C14/missing-reply", "count", "no reply to %v", q)
+				return
+			}
+			if op.K == "write" {
+				if f, ok := slotFile[op.H]; ok && !failedWrite[fmt.Sprintf("/%s@%d", f, op.Off)] {
+					end := int(op.Off) + op.N
+					if end > len(ref[f]) {
+						ref[f] = append(ref[f], make([]byte, end-len(ref[f]))...)
+					}
+					copy(ref[f][op.Off:], q.Data)
+				}
+			}
+			if op.K == "open" {
+				// the client never learnt this handle: nothing after it can be about it
+				r.res.Skipped = "invalid-program"
+				return
+			}
+			continue
+		}
 		p := wc.replies[i]
 		switch op.K {
 		case "open":
